@@ -3,7 +3,7 @@ import json
 
 from .base import Prop
 from .. import gen, hist
-from ..engine import in_progress, pending_attribution
+from ..engine import in_progress, pending_attribution_by_text
 from ..oracle import Notes
 from .c01 import check_blame, draw_hazards
 
@@ -14,7 +14,7 @@ def branch_tips(w, repo):
 
 
 def protected_state(ex, repo):
-    return {"notes": Notes(ex.w, repo).canonical_map(), "pending": pending_attribution(ex.w, repo)}
+    return {"notes": Notes(ex.w, repo).canonical_map(), "pending": pending_attribution_by_text(ex.w, repo)}
 
 
 class HistoryProp(Prop):
